@@ -1850,7 +1850,7 @@ def _stamp(nodes, at, src):
                 n.end_col_offset = n.col_offset
 
 
-def _expand(h, call, caller_locals, is_method, self_expr=None, allow=()):
+def _expand(h, call, caller_locals, is_method, self_expr=None, allow=(), expr_ctx=False):
     """(binding statements, body statements) of helper h specialised to this call, or None"""
     env = _bind(h, call, is_method)
     if env is None:
@@ -1872,7 +1872,9 @@ def _expand(h, call, caller_locals, is_method, self_expr=None, allow=()):
             sub[p] = v
             continue
         cnt, inloop = _use_count(body, p)
-        if cnt <= 1 and not inloop or _pure(v):
+        # an argument that is evaluated once by the call and read many times (in a loop / comprehension) by the helper is a temporary of the
+        # caller - unless the call stands inside an expression, where there is no place for the binding statement
+        if cnt <= 1 and not inloop or (_pure(v) and (expr_ctx or not inloop)):
             sub[p] = v
         else:
             binds.append(ast.Assign(targets=[ast.Name(id=p, ctx=ast.Store())], value=copy.deepcopy(v)))
@@ -1886,6 +1888,12 @@ def _expand(h, call, caller_locals, is_method, self_expr=None, allow=()):
         return None
     allow = set(allow) - _names_read(call)      # the call's own target may be clobbered: it is (re)assigned by this very statement
     ren = {n: n + '_' for n in hl & caller_locals if n not in env and n not in allow}
+    # a parameter bound by a statement must not clobber a variable of the caller either (unless it is bound to that very variable)
+    for b in binds:
+        p = b.targets[0].id
+        if p in caller_locals and p not in allow and not (isinstance(b.value, ast.Name) and b.value.id == p):
+            ren[p] = p + '_'
+            b.targets[0].id = p + '_'
     if ren:
         for s in body:
             for n in ast.walk(s):
@@ -2151,7 +2159,7 @@ def _inline_in(fn, lookup, key, stats):
                 b = _body_of(h)
                 if _exprify(b) is None:
                     return c
-                ex = _expand(h, c, caller_locals, is_method, self_expr)
+                ex = _expand(h, c, caller_locals, is_method, self_expr, expr_ctx=True)
                 if ex is None or ex[0]:
                     return c
                 e = _exprify(ex[1])
